@@ -288,8 +288,8 @@ TABLE = [
     (('C05',), 'mistral.workflow.direct_workflow.DirectWorkflowController.evaluate_workflow_final_context', 'evaluate_upstream_context',
      [('cfg.CONF.context_versioning.enabled', True)]),
     # ---- refusals: `!Exc` = every `raise Exc(...)` of the function.  A
-    # refusal that gains a condition is a check that is skipped; here ALL
-    # dominating facts count (state tests included)
+    # refusal that gains a (non-state) condition is a check that is skipped;
+    # the state conditions of refusals are decided by the STATE rules
     (('C19',), 'mistral.utils.egress.validate_url', '!UrlNotAllowedException',
      [("parse.urlsplit(url).scheme in ('http', 'https')", False), ('parse.urlsplit(url).hostname', False), ("parse.urlsplit(url).scheme in ('http', 'https')", True), ('CONF.action_std_http.allowed_hosts', True), ('parse.urlsplit(url).hostname in CONF.action_std_http.allowed_hosts', False), ('parse.urlsplit(url).hostname', True), ('address in network', True), ('CONF.action_std_http.allowed_hosts and parse.urlsplit(url).hostname not in CONF.action_std_http.allowed_hosts', False)]),
     (('C15',), 'mistral.db.v2.sqlalchemy.api._check_modify_access', '!NotAllowedException',
@@ -396,7 +396,7 @@ def required_effects(ctx, rule, prop):
             # a fact over the same variables as a known enabling fact is
             # the same test spelled differently (`x` / `x is True or x`);
             # what is reported is a condition on something NEW
-            extra = [x for x in enabling_facts(cfg, f, node, all_=deny)
+            extra = [x for x in enabling_facts(cfg, f, node)
                      if x not in allowed and
                      not (_paths(x[0]) and _paths(x[0]) <= known)]
             rule.check(not extra, ctx.construct(f, extra=eff + ' enabled'),
